@@ -18,7 +18,7 @@
    normalised there (interval 0, no out-of-memory events: it does not influence
    the behaviour). *)
 From Coq Require Import Lia.
-From Torf Require Import Base Pipeline PipelineProofs FlowProofs PipeExplore PipeExploreProofs NormProofs PipeConfigs.
+From Torf Require Import Base Pipeline PipelineProofs FlowProofs ThreadProofs PipeExplore PipeExploreProofs NormProofs PipeConfigs.
 Open Scope Z_scope.
 
 (* soundness of the exploration: what the checker accepts holds for every reachable state *)
@@ -36,6 +36,18 @@ Theorem C03_exploration_covers_model : forall c ref may_false raises,
   forall s, reach c s -> goodb c ref may_false raises (norm s) = true /\ finishes c (norm s).
 Proof. intros c ref mf rs Hi Ho Hall s Hr. exact (Hall (norm s) (reach_covered c s Hi Ho Hr)). Qed.
 Print Assumptions C03_exploration_covers_model.
+
+(* UNBOUNDED: whenever the call has returned -- under every schedule, with any number of hashers and
+   pieces, any callback plan, any read fault, any refused additional hasher and any clock -- no
+   worker thread is running any more (reader, janitor and every hasher have ended).  The only
+   exception is the RuntimeError raised when the reader, the janitor or the first hasher cannot be
+   started (C04's known finding).  Proved by an invariant over the thread life cycles, the
+   janitor's bookkeeping of tracked hashers and the join sequence (proofs/ThreadProofs.v). *)
+Theorem C03_no_worker_left_unbounded : forall c s,
+  (1 <= cf_hashers c)%nat -> reach c s -> s_mdone s = true -> s_result s <> Some (ResRuntimeError 1) ->
+  running_threads c s = [].
+Proof. exact no_worker_left. Qed.
+Print Assumptions C03_no_worker_left_unbounded.
 
 (* reading goodb *)
 Theorem C03_no_deadlock : forall c ref mf rs s,
